@@ -59,6 +59,42 @@ fn resend_server(n: u32, rm: u16, out: &mut dyn Write) {
     }
 }
 
+/// every identifier from 1 to the type's maximum can be in use at once; then exhaustion is an error
+fn exhaust_u16(out: &mut dyn Write) {
+    let r = catch_unwind(AssertUnwindSafe(|| {
+        let mut c = GenericConnection::<Client, u16>::new(Version::V5_0);
+        let mut seen = vec![false; 65536];
+        let mut n = 0u32;
+        let mut distinct = true;
+        let mut zero = false;
+        for _ in 0..65535u32 {
+            match c.acquire_packet_id() {
+                Ok(id) => {
+                    if id == 0 {
+                        zero = true;
+                    }
+                    if seen[id as usize] {
+                        distinct = false;
+                    }
+                    seen[id as usize] = true;
+                    n += 1;
+                }
+                Err(_) => break,
+            }
+        }
+        let next = match c.acquire_packet_id() {
+            Ok(id) => format!("ok{id}"),
+            Err(_) => "E".to_string(),
+        };
+        let reg = c.register_packet_id(65535).is_err();
+        (n, distinct && !zero, next, reg)
+    }));
+    match r {
+        Ok((n, d, next, reg)) => writeln!(out, "K exhaust ids=u16 | ok acquired={n} distinct={} next={next} register_max_refused={} | -", d as u8, reg as u8).unwrap(),
+        Err(_) => writeln!(out, "K exhaust ids=u16 | PANIC | -").unwrap(),
+    }
+}
+
 pub fn generate(tier: &str, _seed: u64, out: &mut dyn Write) {
     let _ = hex(&[]);
     writeln!(out, "T bulk resend").unwrap();
@@ -69,5 +105,6 @@ pub fn generate(tier: &str, _seed: u64, out: &mut dyn Write) {
             resend_server(n, rm, out);
         }
     }
+    exhaust_u16(out);
     writeln!(out, "END").unwrap();
 }
